@@ -59,6 +59,7 @@ struct HIter {
     long unknown_delivered = 0;            // packets delivered through next(NULL): identity unknown
     uint64_t cur = 0; bool cur_valid = false, cur_unknown = false;
     ItState state = IT_NEW;
+    size_t loops_at_open = 0, conts_at_open = 0;   // handles created later, inside the transaction, are discarded on abort
 };
 
 struct ApiRun {
@@ -122,6 +123,7 @@ struct ApiRun {
     // 'f' must be re-invocable: a failed attempt has to leave everything unchanged, which is the property under test.
     enum { A_PLAIN = 0, A_ITER = 1, A_NOENUM = 2 };
     long enum_steps = 0;
+    bool disk_plan_active = false;
     bool iter_fault_hit = false;          // an iterator call ran under a fired allocation fault: caller aborts the iterator
     template <class F> int api(const char *fn, F f, int flags = A_PLAIN);
     void env_check(const char *fn, const std::string &loc0, int rnd0);
@@ -154,7 +156,9 @@ template <class F> int ApiRun::api(const char *fn, F f, int flags) {
         }
         violate("enumeration", fn, "more than 100000 allocation sites in one call");
     }
+    if (disk_plan_active) g_disk.armed = true;
     int rc = f();
+    if (disk_plan_active) g_disk.armed = false;
     env_check(fn, loc0, rnd0);
     return rc;
 }
